@@ -264,8 +264,6 @@ class OnceTranslator:
                 if len(body) == 1 and isinstance(body[0], ast.Return) and body[0].value is None:
                     if ret["in_lock"] and not ret["tail"]:
                         raise Reject("return inside a lock block that is followed by more statements (line %d)" % st.lineno)
-                    if not ret["in_lock"] and False:
-                        pass
                     self.emit("ICheck", ret["label"], st.lineno)
                     continue
                 raise Reject("`if %s:` with a body other than `return`" % ast.unparse(st.test))
@@ -311,6 +309,8 @@ class OnceTranslator:
                     self.check_flag(name)
                     self.emit("ISetFlag", None, st.lineno)
                     continue
+                if isinstance(st.value, ast.Call) and (call_name(st.value) or "").split(".")[-1] in ("Lock", "RLock", "Semaphore", "Condition"):
+                    raise Reject("lock %s is created inside %s (one lock per call = no mutual exclusion)" % (name, self.fn.name))
                 k = self.iter_kind(st.value)
                 if k == "mat":
                     self.emit("ISnapshot", None, st.lineno)
